@@ -195,6 +195,16 @@ func (c *LRUCache) Set(key string, value interface{}, ttl time.Duration) error {
 		Size:       size,
 	}
 
+	// A cache that may hold no entry, or a value larger than the whole size budget, can
+	// never satisfy the limits: such a value is not cached (and replaces nothing).
+	// Without this the eviction loop below never ends once the list is empty.
+	if c.capacity <= 0 || (c.maxSize > 0 && size > c.maxSize) {
+		if elem, ok := c.items[key]; ok {
+			c.removeElement(elem)
+		}
+		return nil
+	}
+
 	// Check if key already exists
 	if elem, ok := c.items[key]; ok {
 		c.evictList.MoveToFront(elem)
@@ -207,7 +217,7 @@ func (c *LRUCache) Set(key string, value interface{}, ttl time.Duration) error {
 	}
 
 	// Evict if necessary
-	for c.evictList.Len() >= c.capacity || (c.maxSize > 0 && c.currentSize+size > c.maxSize) {
+	for c.evictList.Len() > 0 && (c.evictList.Len() >= c.capacity || (c.maxSize > 0 && c.currentSize+size > c.maxSize)) {
 		c.evictOldest()
 	}
 
@@ -247,6 +257,14 @@ func (c *LRUCache) SetWithTags(key string, value interface{}, ttl time.Duration,
 		Tags:       tags,
 	}
 
+	// See Set: a value that can never fit is not cached.
+	if c.capacity <= 0 || (c.maxSize > 0 && size > c.maxSize) {
+		if elem, ok := c.items[key]; ok {
+			c.removeElement(elem)
+		}
+		return nil
+	}
+
 	if elem, ok := c.items[key]; ok {
 		c.evictList.MoveToFront(elem)
 		oldEntry := elem.Value.(*Entry)
@@ -256,7 +274,7 @@ func (c *LRUCache) SetWithTags(key string, value interface{}, ttl time.Duration,
 		return nil
 	}
 
-	for c.evictList.Len() >= c.capacity || (c.maxSize > 0 && c.currentSize+size > c.maxSize) {
+	for c.evictList.Len() > 0 && (c.evictList.Len() >= c.capacity || (c.maxSize > 0 && c.currentSize+size > c.maxSize)) {
 		c.evictOldest()
 	}
 
